@@ -309,9 +309,10 @@ def fnOf (f : String) : Fn :=
   else if f = "fiber_manager_do_maintenance" then .maint
   else if f = "fiber_manager_wait_in_mpsc_queue" then .waitSaving
   else if f = "fiber_manager_wait_in_mpmc_queue" ∨ f = "fiber_manager_set_and_wait" ∨ f = "fiber_sleep"
-       ∨ f = "fiber_wait_for_event" ∨ f = "fiber_signal_wait" ∨ f = "fiber_multi_signal_wait" then .waitDefer
+       ∨ f = "fiber_wait_for_event" ∨ f = "fiber_signal_wait" ∨ f = "fiber_multi_signal_wait"
+       ∨ f = "fiber_multi_channel_internal_wait" then .waitDefer
   else if f = "fiber_manager_wake_from_mpsc_queue" ∨ f = "fiber_manager_wake_from_mpmc_queue"
-       ∨ f.startsWith "fiber_event_wake_" ∨ f = "fiber_signal_raise"
+       ∨ f.startsWith "fiber_event_wake_" ∨ f = "fiber_signal_raise" ∨ f = "fiber_multi_channel_internal_wake"
        ∨ f = "fiber_multi_signal_raise" ∨ f = "fiber_multi_signal_raise_strict" ∨ f = "fiber_join"
        ∨ f = "fiber_tryjoin" ∨ f = "fiber_detach" ∨ f = "fiber_scheduler_schedule" then .wake
   else if f = "fiber_mark_completed" then .done
